@@ -100,12 +100,18 @@ def extract_feature_name_id(feature_qualifiers: Dict[str, List[str]]) -> Tuple[s
     feature_id_key = None
     for qualifier, vals in feature_qualifiers.items():
         # exact case insensitive match
-        if re.match(FEATURE_INTERVAL_NAME_QUALIFIERS_REGEX, qualifier):
+        if (
+            re.fullmatch(FEATURE_INTERVAL_NAME_QUALIFIERS_REGEX, qualifier)
+            and qualifier.upper() in FeatureIntervalNameQualifiers.__members__
+        ):
             this_feature_key = FeatureIntervalNameQualifiers[qualifier.upper()]
             if not feature_key or this_feature_key < feature_key:
                 feature_name = vals[0]
                 feature_key = this_feature_key
-        elif re.match(FEATURE_INTERVAL_ID_QUALIFIERS_REGEX, qualifier):
+        elif (
+            re.fullmatch(FEATURE_INTERVAL_ID_QUALIFIERS_REGEX, qualifier)
+            and qualifier.upper() in FeatureIntervalIDQualifiers.__members__
+        ):
             this_feature_id_key = FeatureIntervalIDQualifiers[qualifier.upper()]
             if not feature_id_key or this_feature_id_key < feature_id_key:
                 feature_id = vals[0]
